@@ -724,6 +724,26 @@ impl WireProp for C16Wire {
                             f.extend((0..(8 + (*v as usize * 5) % 24)).map(|i| (i * 37 + 11) as u8));
                             (src, dst, f, None)
                         }
+                        6..=8 => {
+                            // the algorithm is public (HMAC-SHA256 over client cookie, server
+                            // address, client address); only the key is secret.  A server part
+                            // computed under a key anyone can guess was never issued by this server.
+                            use hmac::Mac as _;
+                            let key: [u8; 8] = match v {
+                                6 => [0u8; 8],
+                                7 => [0xffu8; 8],
+                                _ => [1, 2, 3, 4, 5, 6, 7, 8],
+                            };
+                            let mut h = hmac::Hmac::<sha2::Sha256>::new_from_slice(&key).unwrap();
+                            h.update(&client_cookie);
+                            if let (IpAddr::V6(d), IpAddr::V6(s_)) = (dst.ip(), src) {
+                                h.update(&d.octets());
+                                h.update(&s_.octets());
+                            }
+                            let mut f = client_cookie.clone();
+                            f.extend_from_slice(h.finalize().into_bytes().as_slice());
+                            (src, dst, f, None)
+                        }
                         _ => match self.start_server() {
                             Ok((s2, p2)) => (src, SocketAddr::new(IpAddr::V6(v6_local(4)), p2), full.clone(), Some((s2, p2))),
                             Err(e) => {
@@ -746,7 +766,7 @@ impl WireProp for C16Wire {
                     } else {
                         out.class("invalid-cookie-not-exempt");
                         if answered * 2 > n {
-                            let what = ["", "presented from another source address", "presented to another server address", "with one bit flipped", "with an invented server part", "issued before a restart"][(*v as usize).min(5)];
+                            let what = ["", "presented from another source address", "presented to another server address", "with one bit flipped", "with an invented server part", "issued before a restart", "computed with the public algorithm under the all-zero key", "computed with the public algorithm under the all-ones key", "computed with the public algorithm under the key 01..08"][(*v as usize).min(8)];
                             out.fail(
                                 format!("C16:invalid-cookie-exempt:{}", v),
                                 format!("a cookie {} exempted the client: {} of {} refused queries answered", what, answered, n),
@@ -775,11 +795,14 @@ pub fn run_c16_wire(ctx: &Ctx) {
     let strat = (
         proptest::collection::vec(any::<u8>(), 1..=4),
         prop_oneof![Just(200u16), Just(600), 200u16..2000],
-        proptest::collection::vec(0u8..6, 1..=4),
+        proptest::collection::vec(0u8..9, 1..=4),
     )
         .prop_map(|(quiet, blast, mut cookie_variants)| {
-            cookie_variants.sort();
-            cookie_variants.dedup();
+            // the whole matrix in every case (the subset only orders it): each variant is one
+            // short burst, and a case is a fresh server
+            cookie_variants.extend(0u8..9);
+            let mut seen = std::collections::HashSet::new();
+            cookie_variants.retain(|v| seen.insert(*v));
             LimiterCase {
                 quiet,
                 blast,
